@@ -59,6 +59,8 @@ def SStmt.names : SStmt → List Atom
   | .while c b => c.names ++ SStmt.names b
   | .doWhile b c => SStmt.names b ++ c.names
   | .for i c u b => i.names ++ c.names ++ u.names ++ SStmt.names b
+  | .brk | .cont => []
+  | .ifBrk c | .ifCont c => c.names
 
 /-- the cell(s) an operand can denote are not the scratch cell; for an element subscripted by a register:
     whatever the register holds (true of every layout that places `cctmp` below the arrays) -/
@@ -83,19 +85,45 @@ def pureSpec (L : Layout) (σ : SrcSt) : RStmt → SrcSt
   | .inc v => wr L σ v (rval L σ v.ra + 1)
   | .dec v => wr L σ v (rval L σ v.ra - 1)
 
-def semPure (L : Layout) : Nat → SrcSt → SStmt → Option SrcSt
+mutual
+def semPure (L : Layout) : Nat → SrcSt → SStmt → Option Out
   | 0, _, _ => none
-  | _ + 1, m, .flat s => some (pureSpec L m s)
-  | _ + 1, m, .skip => some m
-  | f + 1, m, .seq a b => (semPure L f m a).bind fun m1 => semPure L f m1 b
-  | f + 1, m, .ifThen c t => if evalCond L m c then semPure L f m t else some m
+  | _ + 1, m, .flat s => some (.norm, pureSpec L m s)
+  | _ + 1, m, .skip => some (.norm, m)
+  | _ + 1, m, .brk => some (.brk, m)
+  | _ + 1, m, .cont => some (.cont, m)
+  | _ + 1, m, .ifBrk c => some (if evalCond L m c then .brk else .norm, m)
+  | _ + 1, m, .ifCont c => some (if evalCond L m c then .cont else .norm, m)
+  | f + 1, m, .seq a b =>
+    (match semPure L f m a with
+     | some (.norm, m1) => semPure L f m1 b
+     | r => r)
+  | f + 1, m, .ifThen c t => if evalCond L m c then semPure L f m t else some (.norm, m)
   | f + 1, m, .ifElse c t e => if evalCond L m c then semPure L f m t else semPure L f m e
   | f + 1, m, .while c b =>
-    if evalCond L m c then (semPure L f m b).bind fun m1 => semPure L f m1 (.while c b) else some m
+    if evalCond L m c then
+      (match semPure L f m b with
+       | none => none
+       | some (.brk, m1) => some (.norm, m1)
+       | some (_, m1) => semPure L f m1 (.while c b))
+    else some (.norm, m)
   | f + 1, m, .doWhile b c =>
-    (semPure L f m b).bind fun m1 => if evalCond L m1 c then semPure L f m1 (.doWhile b c) else some m1
-  | f + 1, m, .for i c u b =>
-    semPure L f (pureSpec L m i) (.while c (.seq b (.flat u)))
+    (match semPure L f m b with
+     | none => none
+     | some (.brk, m1) => some (.norm, m1)
+     | some (_, m1) => if evalCond L m1 c then semPure L f m1 (.doWhile b c) else some (.norm, m1))
+  | f + 1, m, .for i c u b => semPureFor L c u b f (pureSpec L m i)
+
+def semPureFor (L : Layout) (c : Cond) (u : RStmt) (b : SStmt) : Nat → SrcSt → Option Out
+  | 0, _ => none
+  | f + 1, m =>
+    if evalCond L m c then
+      (match semPure L f m b with
+       | none => none
+       | some (.brk, m1) => some (.norm, m1)
+       | some (_, m1) => semPureFor L c u b f (pureSpec L m1 u))
+    else some (.norm, m)
+end
 
 /-! ### agreement -/
 
@@ -248,71 +276,156 @@ theorem evalCond_eqOff (L : Layout) {σ τ : SrcSt} (h : EqOff L σ τ) (c : Con
   | or a b iha ihb => simp only [evalCond]; rw [iha (NoTmp.left hn), ihb (NoTmp.right hn)]
   | not c ih => simp only [evalCond]; rw [ih hn]
 
-/-- the two readings of an outcome: both undefined, or both defined and equal off the scratch cell -/
-def OutEq (L : Layout) : Option SrcSt → Option SrcSt → Prop
-  | some a, some b => EqOff L a b
+/-- the two readings of an outcome: both undefined, or both defined, ending the same way and equal off the scratch cell -/
+def OutEq (L : Layout) : Option Out → Option Out → Prop
+  | some a, some b => a.1 = b.1 ∧ EqOff L a.2 b.2
   | none, none => True
   | _, _ => False
 
-theorem OutEq.bind {L : Layout} {o1 o2 : Option SrcSt} {k1 k2 : SrcSt → Option SrcSt} (h : OutEq L o1 o2)
-    (hk : ∀ a b, EqOff L a b → OutEq L (k1 a) (k2 b)) : OutEq L (o1.bind k1) (o2.bind k2) := by
-  cases o1 <;> cases o2 <;> simp [OutEq] at h ⊢
-  exact hk _ _ h
-
 /-- whole programs -/
-theorem sem_pure (L : Layout) : ∀ (f : Nat) (σ τ : SrcSt) (st : SStmt), EqOff L σ τ → NoTmp L st.names →
-    OutEq L (sem L f σ st) (semPure L f τ st) := by
+theorem sem_pure_both (L : Layout) : ∀ (f : Nat),
+    (∀ (σ τ : SrcSt) (st : SStmt), EqOff L σ τ → NoTmp L st.names → OutEq L (sem L f σ st) (semPure L f τ st)) ∧
+    (∀ (c : Cond) (u : RStmt) (b : SStmt) (σ τ : SrcSt), EqOff L σ τ → NoTmp L c.names → NoTmp L u.names → NoTmp L (SStmt.names b) →
+      OutEq L (semFor L c u b f σ) (semPureFor L c u b f τ)) := by
   intro f
   induction f with
-  | zero => intro σ τ st _ _; simp [sem, semPure, OutEq]
+  | zero => exact ⟨fun σ τ st _ _ => by simp [sem, semPure, OutEq], fun c u b σ τ _ _ _ _ => by simp [semFor, semPureFor, OutEq]⟩
   | succ f ih =>
-    intro σ τ st h hn
-    cases st with
-    | flat s => simp only [sem, semPure, OutEq]; exact rspec_pure L h s hn
-    | skip => simpa [sem, semPure, OutEq] using h
-    | seq a b =>
-      simp only [sem, semPure]
-      exact OutEq.bind (ih σ τ a h (NoTmp.left hn)) (fun x y hxy => ih x y b hxy (NoTmp.right hn))
-    | ifThen c t =>
-      simp only [sem, semPure]
-      rw [evalCond_eqOff L h c (NoTmp.left hn)]
+    obtain ⟨ih1, ih2⟩ := ih
+    refine ⟨?_, ?_⟩
+    · intro σ τ st h hn
+      cases st with
+      | flat s => simp only [sem, semPure]; exact ⟨rfl, rspec_pure L h s hn⟩
+      | skip => simp only [sem, semPure]; exact ⟨rfl, h⟩
+      | brk => simp only [sem, semPure]; exact ⟨rfl, h⟩
+      | cont => simp only [sem, semPure]; exact ⟨rfl, h⟩
+      | ifBrk c => simp only [sem, semPure]; exact ⟨by rw [evalCond_eqOff L h c hn], h⟩
+      | ifCont c => simp only [sem, semPure]; exact ⟨by rw [evalCond_eqOff L h c hn], h⟩
+      | seq a b =>
+        simp only [sem, semPure]
+        have ha := ih1 σ τ a h (NoTmp.left hn)
+        cases h1 : sem L f σ a with
+        | none =>
+          cases h2 : semPure L f τ a with
+          | none => simp [OutEq]
+          | some o2 => rw [h1, h2] at ha; simp [OutEq] at ha
+        | some o1 =>
+          cases h2 : semPure L f τ a with
+          | none => rw [h1, h2] at ha; simp [OutEq] at ha
+          | some o2 =>
+            rw [h1, h2] at ha
+            obtain ⟨e1, m1⟩ := o1
+            obtain ⟨e2, m2⟩ := o2
+            simp only [OutEq] at ha
+            obtain ⟨he, hm⟩ := ha
+            subst he
+            cases e1 with
+            | norm => exact ih1 m1 m2 b hm (NoTmp.right hn)
+            | brk => exact ⟨rfl, hm⟩
+            | cont => exact ⟨rfl, hm⟩
+      | ifThen c t =>
+        simp only [sem, semPure]
+        rw [evalCond_eqOff L h c (NoTmp.left hn)]
+        split
+        · exact ih1 σ τ t h (NoTmp.right hn)
+        · exact ⟨rfl, h⟩
+      | ifElse c t e =>
+        simp only [sem, semPure]
+        rw [evalCond_eqOff L h c (NoTmp.left (NoTmp.left hn))]
+        split
+        · exact ih1 σ τ t h (NoTmp.right (NoTmp.left hn))
+        · exact ih1 σ τ e h (NoTmp.right hn)
+      | «while» c b =>
+        simp only [sem, semPure]
+        rw [evalCond_eqOff L h c (NoTmp.left hn)]
+        split
+        · have hb := ih1 σ τ b h (NoTmp.right hn)
+          cases h1 : sem L f σ b with
+          | none =>
+            cases h2 : semPure L f τ b with
+            | none => simp [OutEq]
+            | some o2 => rw [h1, h2] at hb; simp [OutEq] at hb
+          | some o1 =>
+            cases h2 : semPure L f τ b with
+            | none => rw [h1, h2] at hb; simp [OutEq] at hb
+            | some o2 =>
+              rw [h1, h2] at hb
+              obtain ⟨e1, m1⟩ := o1
+              obtain ⟨e2, m2⟩ := o2
+              simp only [OutEq] at hb
+              obtain ⟨he, hm⟩ := hb
+              subst he
+              cases e1 with
+              | brk => exact ⟨rfl, hm⟩
+              | norm => exact ih1 m1 m2 (.while c b) hm hn
+              | cont => exact ih1 m1 m2 (.while c b) hm hn
+        · exact ⟨rfl, h⟩
+      | doWhile b c =>
+        simp only [sem, semPure]
+        have hb := ih1 σ τ b h (NoTmp.left hn)
+        cases h1 : sem L f σ b with
+        | none =>
+          cases h2 : semPure L f τ b with
+          | none => simp [OutEq]
+          | some o2 => rw [h1, h2] at hb; simp [OutEq] at hb
+        | some o1 =>
+          cases h2 : semPure L f τ b with
+          | none => rw [h1, h2] at hb; simp [OutEq] at hb
+          | some o2 =>
+            rw [h1, h2] at hb
+            obtain ⟨e1, m1⟩ := o1
+            obtain ⟨e2, m2⟩ := o2
+            simp only [OutEq] at hb
+            obtain ⟨he, hm⟩ := hb
+            subst he
+            cases e1 with
+            | brk => exact ⟨rfl, hm⟩
+            | norm =>
+              dsimp only
+              rw [evalCond_eqOff L hm c (NoTmp.right hn)]
+              split
+              · exact ih1 m1 m2 (.doWhile b c) hm hn
+              · exact ⟨rfl, hm⟩
+            | cont =>
+              dsimp only
+              rw [evalCond_eqOff L hm c (NoTmp.right hn)]
+              split
+              · exact ih1 m1 m2 (.doWhile b c) hm hn
+              · exact ⟨rfl, hm⟩
+      | «for» i c u b =>
+        simp only [sem, semPure]
+        have hi : NoTmp L i.names := NoTmp.left (NoTmp.left (NoTmp.left hn))
+        have hc : NoTmp L c.names := NoTmp.right (NoTmp.left (NoTmp.left hn))
+        have hu : NoTmp L u.names := NoTmp.right (NoTmp.left hn)
+        have hb : NoTmp L (SStmt.names b) := NoTmp.right hn
+        exact ih2 c u b _ _ (rspec_pure L h i hi) hc hu hb
+    · intro c u b σ τ h hc hu hb
+      simp only [semFor, semPureFor]
+      rw [evalCond_eqOff L h c hc]
       split
-      · exact ih σ τ t h (NoTmp.right hn)
-      · simpa [OutEq] using h
-    | ifElse c t e =>
-      simp only [sem, semPure]
-      rw [evalCond_eqOff L h c (NoTmp.left (NoTmp.left hn))]
-      split
-      · exact ih σ τ t h (NoTmp.right (NoTmp.left hn))
-      · exact ih σ τ e h (NoTmp.right hn)
-    | «while» c b =>
-      rw [show sem L (f + 1) σ (.while c b) = (if evalCond L σ c then (sem L f σ b).bind fun m1 => sem L f m1 (.while c b) else some σ) from rfl,
-          show semPure L (f + 1) τ (.while c b) = (if evalCond L τ c then (semPure L f τ b).bind fun m1 => semPure L f m1 (.while c b) else some τ) from rfl]
-      rw [evalCond_eqOff L h c (NoTmp.left hn)]
-      split
-      · exact OutEq.bind (ih σ τ b h (NoTmp.right hn)) (fun x y hxy => ih x y (.while c b) hxy hn)
-      · simpa [OutEq] using h
-    | doWhile b c =>
-      rw [show sem L (f + 1) σ (.doWhile b c) = ((sem L f σ b).bind fun m1 => if evalCond L m1 c then sem L f m1 (.doWhile b c) else some m1) from rfl,
-          show semPure L (f + 1) τ (.doWhile b c) = ((semPure L f τ b).bind fun m1 => if evalCond L m1 c then semPure L f m1 (.doWhile b c) else some m1) from rfl]
-      refine OutEq.bind (ih σ τ b h (NoTmp.left hn)) ?_
-      intro x y hxy
-      rw [evalCond_eqOff L hxy c (NoTmp.right hn)]
-      split
-      · exact ih x y (.doWhile b c) hxy hn
-      · simpa [OutEq] using hxy
-    | «for» i c u b =>
-      simp only [sem, semPure]
-      have hi : NoTmp L i.names := NoTmp.left (NoTmp.left (NoTmp.left hn))
-      have hc : NoTmp L c.names := NoTmp.right (NoTmp.left (NoTmp.left hn))
-      have hu : NoTmp L u.names := NoTmp.right (NoTmp.left hn)
-      have hb : NoTmp L (SStmt.names b) := NoTmp.right hn
-      refine ih _ _ _ (rspec_pure L h i hi) ?_
-      intro v hv
-      simp only [SStmt.names, List.mem_append] at hv
-      rcases hv with hv | hv | hv
-      · exact hc v hv
-      · exact hb v hv
-      · exact hu v hv
+      · have hbb := ih1 σ τ b h hb
+        cases h1 : sem L f σ b with
+        | none =>
+          cases h2 : semPure L f τ b with
+          | none => simp [OutEq]
+          | some o2 => rw [h1, h2] at hbb; simp [OutEq] at hbb
+        | some o1 =>
+          cases h2 : semPure L f τ b with
+          | none => rw [h1, h2] at hbb; simp [OutEq] at hbb
+          | some o2 =>
+            rw [h1, h2] at hbb
+            obtain ⟨e1, m1⟩ := o1
+            obtain ⟨e2, m2⟩ := o2
+            simp only [OutEq] at hbb
+            obtain ⟨he, hm⟩ := hbb
+            subst he
+            cases e1 with
+            | brk => exact ⟨rfl, hm⟩
+            | norm => exact ih2 c u b _ _ (rspec_pure L hm u hu) hc hu hb
+            | cont => exact ih2 c u b _ _ (rspec_pure L hm u hu) hc hu hb
+      · exact ⟨rfl, h⟩
+
+theorem sem_pure (L : Layout) (f : Nat) (σ τ : SrcSt) (st : SStmt) (h : EqOff L σ τ) (hn : NoTmp L st.names) :
+    OutEq L (sem L f σ st) (semPure L f τ st) := (sem_pure_both L f).1 σ τ st h hn
 
 end CV.GenStruct
